@@ -282,16 +282,19 @@ ENVS = {
 
 
 def make_sys(kind, variant):
+    """variants 0-2: the round-1 step sizes; 3-5: non-power-of-two step sizes (0.7, 0.1, 0.3, 0.22847 — for which
+    fl(fl(k*h)/h) can be just below k) and long durations (up to 100 steps)"""
+    v = variant % 6
     if kind == "point":
-        dt, mn, mx = [(0.25, 1, 10), (0.1, 2, 6), (0.3, 1, 4)][variant % 3]
+        dt, mn, mx = [(0.25, 1, 10), (0.1, 2, 6), (0.3, 1, 4), (0.7, 1, 12), (0.1, 1, 100), (0.22847, 1, 30)][v]
         return Sys("point", WORLD[0], WORLD[1], [-1.0, -1.0], [1.0, 1.0], dt, mn, mx)
     if kind == "uni":
-        dt, mn, mx = [(0.2, 1, 12), (0.1, 3, 8), (0.35, 1, 5)][variant % 3]
+        dt, mn, mx = [(0.2, 1, 12), (0.1, 3, 8), (0.35, 1, 5), (0.7, 1, 12), (0.1, 1, 100), (0.3, 1, 64)][v]
         return Sys("uni", WORLD[0], WORLD[1], [-0.5, -1.2], [1.5, 1.2], dt, mn, mx)
     if kind == "car":
-        dt, mn, mx = [(0.25, 1, 10), (0.15, 2, 7), (0.4, 1, 4)][variant % 3]
+        dt, mn, mx = [(0.25, 1, 10), (0.15, 2, 7), (0.4, 1, 4), (0.7, 1, 6), (0.1, 1, 90), (0.22847, 2, 30)][v]
         return Sys("car", WORLD[0], WORLD[1], [-0.5, -0.6], [1.5, 0.6], dt, mn, mx)
-    dt, mn, mx = [(0.2, 1, 8), (0.1, 2, 10), (0.25, 1, 3)][variant % 3]
+    dt, mn, mx = [(0.2, 1, 8), (0.1, 2, 10), (0.25, 1, 3), (0.7, 1, 6), (0.1, 1, 60), (0.3, 1, 32)][v]
     return Sys("dint", WORLD[0] + [-1.5, -1.5], WORLD[1] + [1.5, 1.5], [-1.0, -0.5], [2.0, 1.5], dt, mn, mx)
 
 
@@ -313,7 +316,7 @@ def pick_goal_kind(rng):
 
 
 def random_problem(rng, kind):
-    sy = make_sys(kind, rng.below(3))
+    sy = make_sys(kind, rng.below(6))
     boxes = []
     for _ in range(rng.range(0, 4)):
         x, y = rng.uniform(0.5, 8.5), rng.uniform(0.5, 8.5)
@@ -420,7 +423,7 @@ def gen_pwv_scripts(rng, nrand):
                 lines.append(" ".join(["pwv"] + base + f + [str(steps), "v", "e"] + env + tail))
     for _ in range(nrand):
         kind = rng.choice(["point", "uni", "dint", "car"])
-        sy = make_sys(kind, rng.below(3))
+        sy = make_sys(kind, rng.below(6))
         st = full_state(kind, [rng.uniform(0, 10), rng.uniform(0, 10)], rng)
         if kind == "dint":
             st[2], st[3] = rng.uniform(-1.5, 1.5), rng.uniform(-1.5, 1.5)
@@ -535,6 +538,143 @@ def gen_rrtplay(rng):
     return pb, inter, line
 
 
+# ---------------------------------------------------------------------------------- PathControl's own replay (check / interpolate / asGeometric)
+def parse_path_line(line):
+    """`<op> SYS ENV <n> states controls durations` -> (op, Sys, boxes, S, C, D)"""
+    t = line.split()
+    kind = t[1]
+    nb = {"point": 2, "uni": 2, "dint": 4, "car": 2}[kind]
+    nr = {"point": 2, "uni": 3, "dint": 4, "car": 3}[kind]
+    i = 2
+    fl = [F(x) for x in t[i:i + 2 * nb + 4]]
+    i += 2 * nb + 4
+    sy = Sys(kind, fl[:nb], fl[nb:2 * nb], fl[2 * nb:2 * nb + 2], fl[2 * nb + 2:], F(t[i]), int(t[i + 1]), int(t[i + 2]))
+    i += 3
+    assert t[i] == "boxes"
+    k = int(t[i + 2])
+    i += 3
+    boxes = []
+    for _ in range(k):
+        v = [F(x) for x in t[i:i + 4]]
+        boxes.append((v[:2], v[2:]))
+        i += 4
+    n = int(t[i])
+    i += 1
+    S = [[F(x) for x in t[i + j * nr:i + (j + 1) * nr]] for j in range(n)]
+    i += n * nr
+    C = [[F(t[i + 2 * j]), F(t[i + 2 * j + 1])] for j in range(n - 1)]
+    i += 2 * (n - 1)
+    D = [F(x) for x in t[i:i + n - 1]]
+    return t[0], sy, boxes, S, C, D
+
+
+def step_count(d, h):
+    """the property's reading of a duration: the nearest whole number of steps"""
+    return int(math.floor(0.5 + d / h))
+
+
+def lib_check_spec(sy, boxes, S, C, D):
+    """what PathControl::check() must answer: every segment starts in a valid state, all its steps are valid and it
+    ends within float epsilon of the next path state"""
+    if not C:
+        return len(S) == 1 and sys_valid(sy, boxes, S[0])
+    for i in range(len(C)):
+        if not sys_valid(sy, boxes, S[i]):
+            return False
+        s = list(S[i])
+        for _ in range(step_count(D[i], sy.dt)):
+            s = sys_step(sy.kind, s, C[i], sy.dt)
+            if not sys_valid(sy, boxes, s):
+                return False
+        if not sys_dist(sy.kind, s, S[i + 1]) <= FLT_EPS:
+            return False
+    return True
+
+
+def path_ops_oracle(line, out):
+    """judge PathControl::check / interpolate / asGeometric on the implementation's output line; None or a message"""
+    op = line.split()[0]
+    if op == "stepcount" and out != "bad-op":
+        k = int(line.split()[2])
+        got = dict(x.split("=") for x in out.split())
+        if int(got["steps"]) != max(1, k) or got["check"] != "1":
+            return "a %d-step control of step size %r (duration %r): interpolate() yields %s one-step controls, check() = %s" % (
+                k, F(line.split()[1]), F(got["d"]), got["steps"], got["check"])
+        return None
+    if op not in ("pcheck", "pinterp", "pgeom") or out == "bad-op":
+        return None
+    _, sy, boxes, S, C, D = parse_path_line(line)
+    nr = sy.nreals
+    ks = [step_count(d, sy.dt) for d in D]
+    ok_in = lib_check_spec(sy, boxes, S, C, D)
+    want_nc = sum(k if k > 1 else 1 for k in ks)
+    if op == "pcheck":
+        got = out == "check=1"
+        if got != ok_in:
+            return "PathControl::check() = %s but the path %s (segments of %s steps of %r)" % (
+                got, "replays exactly through the propagator" if ok_in else "does not replay", ks[:12], sy.dt)
+        return None
+    if op == "pinterp":
+        sol = parse_solution("status=- has=1 approx=0 dif=0 cb 0 0 0 0 dt=0 min=0 max=0 libcheck=- insidegoal=- path " + out, nr)
+        q = sol["path"]
+        S2, C2, D2 = q["S"], q["C"], q["D"]
+        if len(C2) != want_nc or len(S2) != want_nc + 1:
+            return "interpolate() produced %d controls for segments of %s steps of %r (expected %d one-step controls)" % (
+                len(C2), ks[:12], sy.dt, want_nc)
+        if S2[0] != S[0] or S2[-1] != S[-1]:
+            return "interpolate() changed the first or last state"
+        if any(step_count(d, sy.dt) > 1 for d in D2):
+            return "interpolate() left a segment longer than one step"
+        if ok_in and not lib_check_spec(sy, boxes, S2, C2, D2):
+            return "the interpolated path does not replay through the propagator although the original does (segments of %s steps of %r)" % (ks[:12], sy.dt)
+        return None
+    t = out.split()
+    m = int(t[1][2:])
+    G = [[F(x) for x in t[2 + j * nr:2 + (j + 1) * nr]] for j in range(m)]
+    if m != want_nc + 1:
+        return "asGeometric() has %d states for segments of %s steps of %r (expected %d)" % (m, ks[:12], sy.dt, want_nc + 1)
+    if ok_in:
+        j = 0
+        for i, k in enumerate(ks):
+            for _ in range(k if k > 1 else 1):
+                s = list(G[j])
+                if k >= 1:
+                    s = sys_step(sy.kind, s, C[i], sy.dt)
+                if not sys_dist(sy.kind, s, G[j + 1]) <= FLT_EPS:
+                    return "asGeometric(): state %d is not one propagation step after state %d" % (j + 1, j)
+                j += 1
+        if G[-1] != S[-1]:
+            return "asGeometric() does not end in the path's last state"
+    return None
+
+
+def gen_synth_paths(rng):
+    """hand-built exactly replayable paths whose segments take every step count 0..100 at non-power-of-two step sizes
+    (for which fl(fl(k*h)/h) can be just below k): PathControl's duration -> step-count conversion"""
+    lines = []
+    for h in (0.7, 0.1, 0.3, 0.22847, 1.0 / 3.0, 0.01):
+        ks = list(range(0, 101))
+        rng.shuffle(ks)
+        for a in range(0, len(ks), 8):
+            kind = rng.choice(["point", "uni", "dint", "car"])
+            sy = make_sys(kind, 0)
+            sy.dt, sy.mn, sy.mx = h, 1, 100
+            st = full_state(kind, [rng.uniform(1.0, 2.0), rng.uniform(1.0, 2.0)], rng)
+            S, C, D = [st], [], []
+            for k in ks[a:a + 8]:
+                u = [rng.uniform(0.0, 0.012 / h * 0.1), rng.uniform(0.0, 0.012 / h * 0.1)]
+                s = list(S[-1])
+                for _ in range(k):
+                    s = sys_step(kind, s, u, h)
+                S.append(s)
+                C.append(u)
+                D.append(float(k) * h)
+            body = sy.toks() + ["boxes", "2", "0", str(len(S))] + [B(x) for s_ in S for x in s_] + [B(x) for u in C for x in u] + [B(d) for d in D]
+            for op in ("pcheck", "pinterp", "pgeom"):
+                lines.append(" ".join([op] + body))
+    return lines
+
+
 # ---------------------------------------------------------------------------------- running
 def run_one(ck, hbin, line, env=None):
     out, rc, err = ck.run_bin(hbin, ["control", line], timeout=900, env=env)
@@ -629,13 +769,12 @@ def judge_plan(ck, hbin, planner, pb, seed, budget, line, out, rc, err, tag, rec
         hard = [f for f in fails if f["clause"] in ("step-valid", "replay-mismatch", "duration-whole", "start")]
         if (sol["libcheck"] == "1") != (not hard):
             ck.count("libcheck-vs-oracle-differs")
-            ck.disagreements += 1
             if ck.dist["libcheck-vs-oracle-differs"] <= 3:
-                ck.report({"engine": "control", "planner": planner, "what": "PathControl::check() and the replay oracle disagree"},
-                          script=["control", line], expected="libcheck=%s" % ("0" if hard else "1"), observed=[out[0][:4000]],
-                          found_input=False, engine="control",
-                          obligation="correspondence control: PathControl::check() = %s but the independent replay found %s"
-                                     % (sol["libcheck"], [f["clause"] for f in hard] or "no failure"))
+                what = ("PathControl::check() rejects the reported path although it replays exactly through the propagator"
+                        if not hard else "PathControl::check() accepts the reported path although the replay fails: %s" % [f["clause"] for f in hard])
+                ck.report({"engine": "control", "planner": planner, "clause": "pathcontrol-check-on-solution", "system": pb.sy.kind},
+                          script=["control", line], expected="check() == (the path replays)", observed=[out[0][:4000], what], engine="control")
+                ck.log("property failure: %s: %s (seed %d budget %d)" % (planner, what, seed, budget))
         records.append((planner, pb, sol, fails, line))
     return sol
 
@@ -687,6 +826,13 @@ def run(ck):
             ck.case(ln, o != "bad-op" and ln.split()[0] in ("pwv", "prop"))
             if "alias" in ln.split() and ln.startswith("pwv") and o.startswith("r=0 ") and int(ln.split("alias ")[1].split()[0]) != 0:
                 ck.count("pwv:aliased-first-step-invalid (F13: buffer keeps the invalid state)")
+            pbad = path_ops_oracle(ln, o)
+            if pbad:
+                ck.report({"engine": "control", "planner": "-", "clause": "pathcontrol-" + ln.split()[0], "what": pbad},
+                          script=["control", ln], expected="PathControl replays its own (state, control, duration) triples",
+                          observed=[o[:3000], pbad], engine="control")
+                ck.log("property failure: PathControl %s: %s" % (ln.split()[0], pbad))
+                break
             bad = pwv_oracle(ln, o)
             if bad:
                 ck.report({"engine": "control", "planner": "-", "clause": "pwv-spec", "what": bad}, script=["control", ln],
@@ -721,7 +867,7 @@ def run(ck):
             for envname in ("empty", "wall", "two"):
                 reps = 8 if quick else 30
                 for rep in range(reps):
-                    pb = std_problem(kind, r.below(3), envname, pick_goal_kind(r)) if rep % 2 == 0 else random_problem(r, kind)
+                    pb = std_problem(kind, r.below(6), envname, pick_goal_kind(r)) if rep % 2 == 0 else random_problem(r, kind)
                     if planner.startswith("Syclop"):
                         pb.goal_kind = "pos"
                     seed = r.below(100000)
@@ -745,7 +891,7 @@ def run(ck):
             for inter in (0, 1):
                 reps = 8 if quick else 30
                 for rep in range(reps):
-                    pb = std_problem(kind, rr.below(3), envname, pick_goal_kind(rr)) if rep % 2 == 0 else random_problem(rr, kind)
+                    pb = std_problem(kind, rr.below(6), envname, pick_goal_kind(rr)) if rep % 2 == 0 else random_problem(rr, kind)
                     seed = rr.below(100000)
                     k = rr.choice([1, 1, 2, 5])
                     iters = rr.choice([0, 3, 40, 400, 1500, 3000] if quick else [0, 1, 7, 60, 600, 3000, 6000])
@@ -758,7 +904,7 @@ def run(ck):
     for kind in ("point", "uni", "dint", "car"):
         for envname in ("empty", "wall", "two"):
             for rep in range(10 if quick else 30):
-                pb = std_problem(kind, rs3.below(3), envname, pick_goal_kind(rs3)) if rep % 2 == 0 else random_problem(rs3, kind)
+                pb = std_problem(kind, rs3.below(6), envname, pick_goal_kind(rs3)) if rep % 2 == 0 else random_problem(rs3, kind)
                 seed = rs3.below(100000)
                 iters = rs3.choice([0, 5, 60, 500, 2000] if quick else [0, 2, 30, 300, 2000, 5000])
                 sel, prune = rs3.choice([(0.2, 0.1), (1.0, 0.5), (2.0, 0.25), (0.5, 1.5), (0.0, 0.0)])
@@ -770,7 +916,7 @@ def run(ck):
     for kind in ("point", "uni", "dint", "car"):
         for envname in ("empty", "wall", "two"):
             for rep in range(10 if quick else 30):
-                pb = std_problem(kind, rs4.below(3), envname, pick_goal_kind(rs4)) if rep % 2 == 0 else random_problem(rs4, kind)
+                pb = std_problem(kind, rs4.below(6), envname, pick_goal_kind(rs4)) if rep % 2 == 0 else random_problem(rs4, kind)
                 seed = rs4.below(100000)
                 iters = rs4.choice([0, 5, 60, 500, 2000] if quick else [0, 2, 30, 300, 2000, 5000])
                 line = " ".join(["est"] + pb.toks() + ["cell=" + B(rs4.choice([1.0, 0.5, 2.5, 0.3])), "k=%d" % rs4.choice([1, 2, 3]),
@@ -781,7 +927,7 @@ def run(ck):
     for kind in ("point", "uni", "dint", "car"):
         for envname in ("empty", "wall", "two"):
             for rep in range(10 if quick else 30):
-                pb = std_problem(kind, rs5.below(3), envname, pick_goal_kind(rs5)) if rep % 2 == 0 else random_problem(rs5, kind)
+                pb = std_problem(kind, rs5.below(6), envname, pick_goal_kind(rs5)) if rep % 2 == 0 else random_problem(rs5, kind)
                 seed = rs5.below(100000)
                 iters = rs5.choice([0, 5, 60, 500, 2000] if quick else [0, 2, 30, 300, 2000, 5000])
                 line = " ".join(["kpiece"] + pb.toks() + ["cell=" + B(rs5.choice([1.0, 0.5, 2.5, 0.3])), "nclose=%d" % rs5.choice([30, 30, 3, 1, 0]),
@@ -873,6 +1019,10 @@ def run(ck):
                     pair_lines.append(" ".join(["pinterp"] + pb.sy.toks() + pb.env_toks() + [str(n)] + Sb + Cb + Db))
                     pair_lines.append(" ".join(["pgeom"] + pb.sy.toks() + pb.env_toks() + [str(n)] + Sb + Cb + Db))
                     ck.count("path-mutation:" + what)
+    synth = gen_synth_paths(ck.rng.fork("synth"))
+    ck.count("synthetic-path-lines (every step count 0..100 at h = 0.7, 0.1, 0.3, 0.22847, 1/3, 0.01)", len(synth))
+    pair_lines += synth
+    pair_lines += ["stepcount %s %d" % (B(h), k) for h in (0.7, 0.1, 0.3, 0.22847, 1.0 / 3.0, 0.01, 0.25) for k in range(0, 101)]
     if lean_lines:
         model, rc2, err2 = ck.run_bin(ck.driver(DRIVER), ["control"] + lean_lines, timeout=900)
         if rc2 != 0:
@@ -901,10 +1051,20 @@ def run(ck):
         impl, rc, err, model = ck.run_pair(hbin, DRIVER, s)
         impl = impl or []
         ck.traces_validated += 1
+        nrep = 0
         for ln, o in zip(pair_lines, impl):
             ck.count("op:" + ln.split()[0])
             if ln.startswith("pcheck"):
                 ck.count("pcheck:" + o)
+            bad = path_ops_oracle(ln, o)
+            if bad:
+                ck.count("pathcontrol-oracle-failures")
+                nrep += 1
+                if nrep <= 3:
+                    ck.report({"engine": "control", "planner": "-", "clause": "pathcontrol-" + ln.split()[0], "what": bad},
+                              script=["control", ln], expected="PathControl replays its own (state, control, duration) triples",
+                              observed=[o[:3000], bad], engine="control")
+                    ck.log("property failure: PathControl %s: %s" % (ln.split()[0], bad))
         dpos = ck.first_diff(impl, model)
         if rc != 0 or dpos is not None:
             ck.disagreements += 1
@@ -957,6 +1117,10 @@ def replay(ck, data):
             bad = pwv_oracle(line, o)
             if bad:
                 print("PROPERTY FAILS [pwv-spec]: " + bad)
+                rcode = 1
+            bad = path_ops_oracle(line, o)
+            if bad:
+                print("PROPERTY FAILS [pathcontrol]: " + bad)
                 rcode = 1
     if rcode == 0:
         print("no failure on the current tree")
